@@ -234,3 +234,120 @@ Example ex_trace :
   /\ filter (fun o => match o with ORefused => true | _ => false end) (outs ex_s2) = [ORefused; ORefused]
   /\ clock ex_s2 = 40 /\ flag ex_s2 = false.
 Proof. vm_compute. repeat split. Qed.
+
+(* ---- the model regenerated from the source IS the proved model ------------------
+   Sim/Gen_Sim.v is regenerated on every run by translator/py2gallina_sim.py from
+   the text of src/pydsol/core/simulator.py of the tree under test (Python ast,
+   fail-closed): schedule_event / _now / _rel / _abs with their time tests,
+   cancel_event, the run loop _run, _step_impl and step, _start_impl / start /
+   run_up_to / run_up_to_including, stop, end_replication, cleanup, initialize and
+   one wake-up of the worker thread's run().  Sim/GenAgree.v proves every generated
+   definition equal to the function of Sim/Model.v the theorems above are about --
+   for all states, arguments, model programs and fuel; [sim_wf] / [rep s <> None]
+   is the representation invariant of the Python object (an initialised simulator
+   has a replication and a worker thread), which holds in every reachable state.
+   So the theorems above are theorems about what simulator.py says now; the main
+   ones are restated over the generated definitions below. ---- *)
+From PV Require Import Sim.Gen_Sim Sim.GenAgree.
+
+Theorem C02_generated_model_is_the_proved_model :
+  (forall s m prio h, gen_sched s m prio h = do_sched s m prio h) /\
+  (forall s k, gen_cancel s k = do_cancel s k) /\
+  (forall w s, gen_Simulator_stop w s =
+               if running s then GRet RNone w (set_rs RStopping (emit NStopping s)) else GExc EDSOL w s) /\
+  (forall md p s e, gen_exec_event md p s e = exec_event md p s e) /\
+  (forall p w s, (rs s <> RNotInit -> rep s <> None) -> gen_Simulator_step p w s = gres_of w (do_step p s)) /\
+  (forall p fuel w s, rep s <> None -> gen_DEVSSimulator__run fuel p w s = GRet RNone w (run_loop fuel p s)) /\
+  (forall fuel p w s, rep s <> None -> gen_SimulatorWorkerThread_run fuel p w s = GRet RNone w (worker_run fuel p s)) /\
+  (forall fuel p s t i, (rs s <> RNotInit -> worker s <> WNone) ->
+     gen_settle fuel p (gen_Simulator__start_impl false s t i) = do_start fuel p s t i) /\
+  (forall fuel p s c, sim_wf s -> gen_do_cmd fuel p s c = do_cmd fuel p s c) /\
+  (forall fuel p cs s, sim_wf s -> gen_run_cmds fuel p s cs = run_cmds fuel p s cs) /\
+  (forall p s, reachable p s -> sim_wf s).
+Proof. exact sim_generated_agree. Qed.
+Print Assumptions C02_generated_model_is_the_proved_model.
+
+(* the states the generated commands reach from a fresh simulator are exactly the model's *)
+Theorem C02_generated_reachable_states : forall p s, gen_reachable p s <-> reachable p s.
+Proof. exact gen_reachable_iff. Qed.
+Print Assumptions C02_generated_reachable_states.
+
+Theorem C02_generated_invariant_reachable : forall p s, gen_reachable p s -> Inv s.
+Proof. exact gen_invariant_reachable. Qed.
+Print Assumptions C02_generated_invariant_reachable.
+
+(* order: the generated run loop is a sequence of takes of the first pending event (C02_exec_is_minimum
+   says each of them is the key-minimum) followed by a loop exit *)
+Theorem C02_generated_run_loop_is_a_sequence_of_takes : forall p fuel w s, rep s <> None ->
+  exists evs s1 s2, runs p s evs s1 /\ loop_exit s1 s2 /\ gen_DEVSSimulator__run fuel p w s = GRet RNone w s2.
+Proof. exact gen_run_loop_is_a_sequence_of_takes. Qed.
+Print Assumptions C02_generated_run_loop_is_a_sequence_of_takes.
+
+Theorem C02_generated_at_most_once : forall p s, gen_reachable p s -> NoDup (map ev_id (executed s)).
+Proof. exact gen_at_most_once. Qed.
+Print Assumptions C02_generated_at_most_once.
+
+Theorem C02_generated_exactly_the_scheduled_uncancelled_in_horizon : forall p fuel s r,
+  sim_wf s -> Inv s -> Acct s -> rep s = Some r -> ps s <> PEnded ->
+  let s' := fst (gen_do_cmd fuel p s CStart) in
+  ps s' = PEnded ->
+  exists evs newc,
+    executed s' = rev evs ++ executed s
+    /\ created s' = created s ++ newc
+    /\ clock s' = r_end r
+    /\ (forall e, In e evs -> In e (pend s) \/ In e newc)
+    /\ (forall e, In e (pend s) \/ In e newc ->
+          (In e evs <-> (~ In e (cancelled s') /\ ev_time e <= r_end r)))
+    /\ (forall e, In e (pend s') -> r_end r < ev_time e).
+Proof. exact gen_start_complete. Qed.
+Print Assumptions C02_generated_exactly_the_scheduled_uncancelled_in_horizon.
+
+Theorem C02_generated_clock_monotone_times_nondecreasing : forall p fuel cs s,
+  sim_wf s -> Inv s -> forallb (fun c => negb (is_init c)) cs = true ->
+  let s' := fst (gen_run_cmds fuel p s cs) in
+  clock s <= clock s' /\
+  exists new, trace s' = new ++ trace s
+    /\ Forall (fun ec => clock s <= snd ec <= clock s') new
+    /\ StronglySorted (fun a b : ev * Z => snd b <= snd a) new.
+Proof. exact gen_run_cmds_mono. Qed.
+Print Assumptions C02_generated_clock_monotone_times_nondecreasing.
+
+Theorem C02_generated_cancel_pending_removes_it : forall s k e,
+  Inv s -> Acct s -> nth_error (created s) k = Some e -> In e (pend s) ->
+  Permutation (pend s) (e :: pend (gen_cancel s k)) /\ cancelled (gen_cancel s k) = e :: cancelled s.
+Proof. exact gen_cancel_pending_removes. Qed.
+Print Assumptions C02_generated_cancel_pending_removes_it.
+
+Theorem C02_generated_cancel_executed_or_cancelled_noop : forall s k e,
+  Inv s -> nth_error (created s) k = Some e -> In e (executed s) \/ In e (cancelled s) -> gen_cancel s k = s.
+Proof. exact gen_cancel_done_noop. Qed.
+Print Assumptions C02_generated_cancel_executed_or_cancelled_noop.
+
+Theorem C02_generated_illegal_refused : forall s m prio h,
+  match m with
+  | MNow => False
+  | MRel (TNum d) => d < 0
+  | MRel TNaN => True
+  | MAbs (TNum t) => t < clock s
+  | MAbs TNaN => True
+  end ->
+  gen_sched s m prio h = out ORefused s
+  /\ pend (gen_sched s m prio h) = pend s /\ nid (gen_sched s m prio h) = nid s.
+Proof. exact gen_illegal_refused. Qed.
+Print Assumptions C02_generated_illegal_refused.
+
+Theorem C02_generated_legal_accepted : forall s m prio h,
+  ~ illegal s m ->
+  exists t, sched_time s m = Some t /\ clock s <= t /\
+    gen_sched s m prio h = out OAccepted (add_event t prio (HUser h) s).
+Proof. exact gen_legal_accepted. Qed.
+Print Assumptions C02_generated_legal_accepted.
+
+(* the example program, run through the generated commands, ends in the same state *)
+Example ex_generated_run :
+  fst (gen_run_cmds 100 ex_prog (init_sim SWarnPause) [CInit (mkRepl 0 0 40); CStart]) = ex_s2
+  /\ sim_wf ex_s1 /\ gen_reachable ex_prog ex_s2.
+Proof.
+  split; [vm_compute; reflexivity|]. split; [apply (reachable_wf ex_prog), ex_reachable|].
+  apply gen_reachable_iff, ex_reachable.
+Qed.
